@@ -101,7 +101,8 @@ EnvStep(what) ==
     /\ UNCHANGED <<gen, run, nfaults>>
 
 \* edit classes that change an emit call: possible only while the project emits events
-EventClasses == {"event_payload", "event_renamed", "event_added"}
+\* ("event_struct": a field added to a struct that reaches the bindings only as an event payload)
+EventClasses == {"event_payload", "event_renamed", "event_added", "event_struct"}
 Edit(c) ==
     /\ c \in EventClasses => hasEvents
     /\ EnvStep(<<"edit", c>>)
